@@ -447,7 +447,15 @@ impl World {
                     if m.len() == 1 && !*batched {
                         self.mems[*c].notify(m[0].clone());
                     } else {
+                        let before = self.mems[*c].miscounted();
                         self.mems[*c].notify_batch(m.clone());
+                        if self.mems[*c].miscounted() != before {
+                            // the notification was (partly) dropped on the floor by the sender itself
+                            self.bad(rep, j, "notification-lost:send_multiple-reports-a-wrong-count",
+                                json!({"entries_given": m.len(), "how": "iterator without an upper size bound (every other batch)"}));
+                            self.aborted = Some("a batched notification was lost".into());
+                            break;
+                        }
                     }
                     if self.static_mode {
                         // every message is its own pass in enhanced mode
